@@ -30,6 +30,7 @@ import (
 	"github.com/tinode/chat/server/store"
 	"github.com/tinode/chat/server/store/types"
 	kit "github.com/tinode/chat/server/zzverifkit"
+	mem "github.com/tinode/chat/server/zzverifmem"
 	"pgregory.net/rapid"
 )
 
@@ -90,7 +91,7 @@ func c16HistGen(rt *rapid.T) c16Hist {
 	}
 	h.Loop = rapid.IntRange(0, 3).Draw(rt, "loop") == 0
 	n := rapid.IntRange(4, 24).Draw(rt, "n_ops")
-	kinds := []string{"up", "up", "up", "up", "pub", "pub", "pub", "pub", "pub", "pub", "newgrp", "setdesc", "setdesc", "acc", "delacc", "delmsg", "delmsg", "deltopic", "tick", "tick", "tick", "gc", "gc", "upfail"}
+	kinds := []string{"up", "up", "up", "up", "pub", "pub", "pub", "pub", "pub", "pub", "newgrp", "setdesc", "setdesc", "acc", "delacc", "delmsg", "delmsg", "deltopic", "tick", "tick", "tick", "gc", "gc", "upfail", "upfault"}
 	for i := 0; i < n; i++ {
 		op := c16Op{K: rapid.SampledFrom(kinds).Draw(rt, "k"), U: rapid.IntRange(0, h.Users-1).Draw(rt, "u")}
 		if i < 2 {
@@ -99,7 +100,7 @@ func c16HistGen(rt *rapid.T) c16Hist {
 			op.K = "newgrp"
 		}
 		switch op.K {
-		case "up", "upfail":
+		case "up", "upfail", "upfault":
 			op.N = rapid.IntRange(0, 9999).Draw(rt, "n")
 		case "pub":
 			op.T = rapid.SampledFrom([]int{-2, 0, 0, 1, 2}).Draw(rt, "t")
@@ -137,6 +138,9 @@ type c16MFile struct {
 	mime string
 	at   time.Time // completion time of the upload
 	gone bool      // observed (and accepted) as collected
+	// noBytes: an upload whose finalisation failed in the store: the record stays 'started', the
+	// bytes were cleaned up. It can be neither downloaded nor referred to; it is collectable.
+	noBytes bool
 }
 
 type c16Holder struct {
@@ -209,10 +213,16 @@ func (m *c16Model) resolve(r c16Ref, serveURL string) c16ResolvedRef {
 	if form == c16FMalformed {
 		return c16ResolvedRef{url: []string{"???", "", "mailto:someone@example.com"}[((r.I%3)+3)%3], file: -1, noFile: true}
 	}
-	if form == c16FDangling || len(m.files) == 0 {
+	var refable []*c16MFile
+	for _, f := range m.files {
+		if !f.noBytes {
+			refable = append(refable, f)
+		}
+	}
+	if form == c16FDangling || len(refable) == 0 {
 		return c16ResolvedRef{url: serveURL + types.Uid(0x0123456789abcdef+uint64(((r.I%8)+8)%8)).String() + ".bin", file: -1, dangling: true}
 	}
-	f := m.files[((r.I%len(m.files))+len(m.files))%len(m.files)]
+	f := refable[((r.I%len(refable))+len(refable))%len(refable)]
 	out := c16ResolvedRef{file: f.idx}
 	last := path.Base(strings.TrimSuffix(serveURL, "/"))
 	switch form {
@@ -373,16 +383,24 @@ func (r *c16Run) linkAll(h *c16Holder, res []c16ResolvedRef) {
 	}
 }
 
-// linkAvatar: a topic or user lists one avatar; a new one replaces the old one.
+// linkAvatar: a topic or user lists one avatar; a new one replaces the old one. Entries which
+// name nothing (not a file url, or no such upload) cannot be the avatar and are passed over.
 func (r *c16Run) linkAvatar(h *c16Holder, res []c16ResolvedRef) {
-	if len(res) == 0 {
+	var first *c16ResolvedRef
+	for i := range res {
+		if res[i].file >= 0 {
+			first = &res[i]
+			break
+		}
+	}
+	if first == nil {
 		return
 	}
-	if res[0].documented {
-		h.strict, h.loose, h.dangling = map[int]bool{res[0].file: true}, map[int]bool{}, false
+	if first.documented {
+		h.strict, h.loose, h.dangling = map[int]bool{first.file: true}, map[int]bool{}, false
 		return
 	}
-	// The list does not start with a documented url of an upload: which entry (if any) counts as
+	// The first entry naming an upload does so in an undocumented spelling: whether it counts as
 	// "the avatar" is not specified. Everything involved may or may not be protected from now on.
 	for i := range h.strict {
 		h.loose[i] = true
@@ -393,7 +411,7 @@ func (r *c16Run) linkAvatar(h *c16Holder, res []c16ResolvedRef) {
 			h.loose[x.file] = true
 		}
 	}
-	r.cls["avatar-list:first-entry-not-a-documented-upload-url(unspecified)"] = true
+	r.cls["avatar-list:first-upload-named-in-an-undocumented-spelling(unspecified)"] = true
 }
 
 func (r *c16Run) topicOf(op c16Op) (name, key string, owner int, ok bool) {
@@ -429,7 +447,7 @@ func (r *c16Run) step(i int, op c16Op) *kit.Viol {
 		req, _ := wr.request()
 		rep, pan := c16Serve(largeFileReceive, req)
 		if pan != nil || rep.code != 200 || rep.url() == "" {
-			return kit.V("gate:refused-valid-request", "op %d: a valid upload was answered %d %s (panic %v)", i, rep.code, c16Short(rep.body), pan)
+			return kit.V("gate:valid-upload-refused", "op %d: a valid upload was answered %d %s (panic %v)", i, rep.code, c16Short(rep.body), pan)
 		}
 		f := &c16MFile{idx: len(r.m.files), url: rep.url(), name: path.Base(rep.url()), data: data, at: types.TimeNow()}
 		f.id = store.Store.GetMediaHandler().GetIdFromUrl(f.url)
@@ -460,6 +478,48 @@ func (r *c16Run) step(i int, op c16Op) *kit.Viol {
 		store.Files.FinishUpload(fdef, false, 0)
 		r.cls["failed-upload"] = true
 		// nothing of it may be left: checked by the directory / record comparison of the next audit
+	case "upfault":
+		// the store fails while the upload is recorded (1st call) or finalised (2nd call)
+		method := []string{"FileStartUpload", "FileFinishUpload"}[op.N%2]
+		data := c16Content(c16KBinary, 64+op.N%500, 90000+i)
+		wr := c16NewWire("POST", "/v0/file/u/")
+		wr.headers.Set("X-Tinode-APIKey", c16MustKey())
+		wr.headers.Set("Authorization", r.token(op.U))
+		wr.file, wr.fileName = data, "f"
+		req, _ := wr.request()
+		before := map[types.Uid]bool{}
+		for _, row := range c16Rows() {
+			before[row.ID] = true
+		}
+		mem.A.Arm(mem.Plan{FailNth: 1, FailMethod: method})
+		rep, pan := c16Serve(largeFileReceive, req)
+		mem.A.Disarm()
+		if pan != nil {
+			v := kit.V("upload:panic-on-store-failure:"+method, "op %d: the store failed in %s and the upload handler panicked: %v", i, method, pan)
+			if r.tol(v) {
+				// what the aborted request left behind is not modelled: the rest of the history is not judged
+				r.cls["listed-finding:"+v.Sig] = true
+				r.cutShort = true
+				return nil
+			}
+			return v
+		}
+		if rep.code < 400 {
+			return kit.V("upload:store-failure-answered-ok", "op %d: %s failed but the upload was answered %d %s", i, method, rep.code, c16Short(rep.body))
+		}
+		for _, row := range c16Rows() {
+			if before[row.ID] {
+				continue
+			}
+			if row.Status == types.UploadCompleted {
+				return kit.V("upload:store-failure-left-completed-record", "op %d: %s failed, the upload was answered %d, yet record %s is 'completed'", i, method, rep.code, row.ID)
+			}
+			// an unfinished record: collectable like any unlisted upload, bytes must be gone (audited)
+			r.m.files = append(r.m.files, &c16MFile{idx: len(r.m.files), url: r.e.serveURL + row.ID.String(), name: row.ID.String(), id: row.ID,
+				at: types.TimeNow(), noBytes: true})
+			r.cls["failed-finalisation:record-left-for-collection"] = true
+		}
+		r.cls["store-failure:"+method] = true
 	case "pub":
 		name, key, owner, ok := r.topicOf(op)
 		if !ok || op.T == -1 {
@@ -768,12 +828,12 @@ func (r *c16Run) judge(what string, keepAfter time.Time, mustGo []*c16MFile, blo
 			if pan != nil {
 				return kit.V("download:panic", "%s: GET %s panicked: %v", what, f.url, pan)
 			}
-			if gone {
+			if gone || f.noBytes {
 				if statErr == nil {
-					return kit.V("gc:bytes-left-behind", "%s: upload %s was removed from the store but its bytes are still in the upload directory", what, f.id)
+					return kit.V("gc:bytes-left-behind", "%s: upload %s was removed from the store (or never finalised) but its bytes are still in the upload directory", what, f.id)
 				}
 				if rep.code != 404 {
-					return kit.V("gc:removed-file-served", "%s: GET %s of a removed upload answered %d", what, f.url, rep.code)
+					return kit.V("gc:removed-file-served", "%s: GET %s of a removed (or never finalised) upload answered %d", what, f.url, rep.code)
 				}
 			} else {
 				if statErr != nil {
@@ -803,10 +863,13 @@ func (r *c16Run) judge(what string, keepAfter time.Time, mustGo []*c16MFile, blo
 
 // audit: the file table and the directory hold exactly the uploads the model knows as present.
 func (r *c16Run) audit(what string) *kit.Viol {
-	var want []string
+	var want, wantBytes []string
 	for _, f := range r.m.files {
 		if !f.gone {
 			want = append(want, f.id.String32())
+			if !f.noBytes {
+				wantBytes = append(wantBytes, f.id.String32())
+			}
 		}
 	}
 	sort.Strings(want)
@@ -819,8 +882,8 @@ func (r *c16Run) audit(what string) *kit.Viol {
 		return kit.V("gc:file-table-differs", "%s: file records %v, expected %v", what, inStore, want)
 	}
 	have := r.e.dirList()
-	if a, b := c16Diff(want, have); len(a)+len(b) > 0 {
-		return kit.V("gc:directory-differs", "%s: upload directory holds %v, expected %v", what, have, want)
+	if a, b := c16Diff(wantBytes, have); len(a)+len(b) > 0 {
+		return kit.V("gc:directory-differs", "%s: upload directory holds %v, expected %v", what, have, wantBytes)
 	}
 	return nil
 }
@@ -868,6 +931,9 @@ func c16HistExec(t *testing.T, h c16Hist, tol func(*kit.Viol) bool) (o kit.Outco
 				}
 			}
 			if viol = run.step(i, op); viol != nil {
+				break
+			}
+			if run.cutShort {
 				break
 			}
 			if run.loop && len(run.missing()) > 0 {
